@@ -42,7 +42,9 @@ fn payload_xml(p: usize) -> (&'static str, &'static str) {
         1 => ("", "<param name=\"a\" expr=\"x\"/><param name=\"b\" expr=\"s\"/><param name=\"c\" expr=\"7\"/>"),
         2 => (" namelist=\"x s\"", ""),
         3 => ("", "<content>hello</content>"),
-        _ => ("", "<content expr=\"x + 1\"/>"),
+        4 => ("", "<content expr=\"x + 1\"/>"),
+        // params given by location, with values that are "empty" in one sense or another
+        _ => ("", "<param name=\"e\" location=\"es\"/><param name=\"n\" location=\"nl\"/><param name=\"z\" location=\"zero\"/><param name=\"f\" location=\"no\"/><param name=\"l\" location=\"el\"/><param name=\"v\" location=\"x\"/>"),
     }
 }
 
@@ -52,7 +54,8 @@ fn payload_expect(p: usize) -> (Option<Vec<(String, String)>>, Option<String>) {
         1 => (Some(vec![("a".into(), "5".into()), ("b".into(), "'str'".into()), ("c".into(), "7".into())]), None),
         2 => (Some(vec![("x".into(), "5".into()), ("s".into(), "'str'".into())]), None),
         3 => (None, Some("'hello'".into())),
-        _ => (None, Some("6".into())),
+        4 => (None, Some("6".into())),
+        _ => (Some(vec![("e".into(), "''".into()), ("n".into(), "null".into()), ("z".into(), "0".into()), ("f".into(), "false".into()), ("l".into(), "[]".into()), ("v".into(), "5".into())]), None),
     }
 }
 
@@ -69,7 +72,7 @@ fn send_xml(s: &SendSpec) -> String {
 fn peer_doc(name: &str, sends: &[SendSpec], child: Option<&str>, trigger_at_start: bool) -> String {
     let mut s = String::new();
     s.push_str(&format!("<scxml xmlns=\"http://www.w3.org/2005/07/scxml\" version=\"1.0\" datamodel=\"rfsm-expression\" name=\"{}\" initial=\"run\">\n", name));
-    s.push_str(" <datamodel><data id=\"x\" expr=\"5\"/><data id=\"s\" expr=\"'str'\"/><data id=\"gid\" expr=\"'none'\"/></datamodel>\n <state id=\"run\">\n");
+    s.push_str(" <datamodel><data id=\"x\" expr=\"5\"/><data id=\"s\" expr=\"'str'\"/><data id=\"gid\" expr=\"'none'\"/><data id=\"es\" expr=\"''\"/><data id=\"nl\" expr=\"null\"/><data id=\"zero\" expr=\"0\"/><data id=\"no\" expr=\"false\"/><data id=\"el\" expr=\"[]\"/></datamodel>\n <state id=\"run\">\n");
     if let Some(c) = child {
         s.push_str(&format!("  <invoke id=\"kid\"><content>{}</content></invoke>\n  <invoke><content>{}</content></invoke>\n", c, MINI_CHILD));
     }
@@ -116,7 +119,7 @@ impl Property for C15Prop {
         "non-trivial: at least 3 sessions were alive, at least 4 sends with external targets were executed and at least one reply round trip completed; distinct = distinct (scenario hash, interleaving signature)"
     }
     fn required_probes(&self) -> Vec<&'static str> {
-        vec!["target:self", "target:internal", "target:literal", "target:targetexpr", "target:parent", "target:invokeid", "payload:params", "payload:namelist", "payload:content", "payload:contentexpr", "reply_round_trip", "concurrent_session_creation", "generated_sendid", "generated_invokeid"]
+        vec!["target:self", "target:internal", "target:literal", "target:targetexpr", "target:parent", "target:invokeid", "payload:params", "payload:namelist", "payload:content", "payload:contentexpr", "payload:params-by-location", "reply_round_trip", "concurrent_session_creation", "generated_sendid", "generated_invokeid"]
     }
     fn assumptions(&self) -> Vec<String> {
         vec![
@@ -146,7 +149,7 @@ impl Property for C15Prop {
                     }
                 }
             };
-            let sp = SendSpec { n, from: from.to_string(), dest, target_attr, payload: rng.below(5) as usize, with_id: rng.below(3) as u8 };
+            let sp = SendSpec { n, from: from.to_string(), dest, target_attr, payload: rng.below(6) as usize, with_id: rng.below(3) as u8 };
             n += 1;
             sp
         };
@@ -378,6 +381,7 @@ impl Property for C15Prop {
                             2 => probes.hit("payload:namelist"),
                             3 => probes.hit("payload:content"),
                             4 => probes.hit("payload:contentexpr"),
+                            5 => probes.hit("payload:params-by-location"),
                             _ => {}
                         }
                         if e.params != ep || e.content != ec {
